@@ -18,7 +18,7 @@
 (*   Quants   set of <<op, n, m, g>> quantifier calls                      *)
 (*   Names    set of capture names used                                    *)
 (***************************************************************************)
-EXTENDS PregexEval, RunCfg
+EXTENDS PregexEval, PregexSem, RunCfg
 
 RECURSIVE IvOfSet(_)
 IvOfSet(S) ==
@@ -217,8 +217,22 @@ Step(x) == CondOps(x) \cup UnaryOps(x) \cup BinOps(x) \cup QuantOps(x) \cup Grou
 
 (* ------------------------------ machine -------------------------------- *)
 
+\* texts on which TLC evaluates the specification's own matcher (oracle calibration):
+\* every sequence over the window characters up to SemLen, in a fixed order
+RECURSIVE TextsOfLen(_)
+TextsOfLen(n) == IF n = 0 THEN << <<>> >>
+                 ELSE LET p == TextsOfLen(n - 1)
+                          RECURSIVE ext(_)
+                          ext(k) == IF k > Len(p) THEN <<>>
+                                    ELSE << p[k] \o <<c1>>, p[k] \o <<c2>>, p[k] \o <<c3>> >> \o ext(k + 1)
+                      IN ext(1)
+RECURSIVE TextsUpTo(_)
+TextsUpTo(n) == IF n = 0 THEN TextsOfLen(0) ELSE TextsUpTo(n - 1) \o TextsOfLen(n)
+SemTab(v) == LET ts == TextsUpTo(SemLen) IN [k \in 1..Len(ts) |-> << ts[k], Find(v, ts[k]), Full(v, ts[k]) >>]
+
 Expect(o, tg) ==
   [ok |-> o.ok, ex |-> o.ex,
+   semtab |-> IF SemLen > 0 /\ o.ok /\ Calibratable(o.v) THEN SemTab(o.v) ELSE <<>>,
    ref |-> IF o.ok THEN Ref(o.v) ELSE "",
    caps |-> IF o.ok THEN CapList(o.v) ELSE <<>>,
    semsafe |-> o.ok /\ SemSafe(o.v),
